@@ -137,8 +137,13 @@ func TestSigAlg(t *testing.T) {
 	n := 0
 	fx := gen.Fixtures()
 	reps := vh.Scale(1200, 60000) // leading-zero r or s: about one signature in 128 is a short one
+	shard, shards := vh.Shard()
 	for i := range fx {
-		if i == 3 { // same key as fixture 0
+		mine := i%shards == shard // a few fixtures per process ...
+		if shards > len(fx) {
+			mine = shard%len(fx) == i // ... or several processes per fixture (more fresh signatures)
+		}
+		if i == 3 || !mine { // 3: same key as fixture 0
 			continue
 		}
 		n++
